@@ -49,13 +49,7 @@ let run_script cfgw ops =
       | "J" :: k :: v :: n :: r -> emit (show_out (st (OInsert (z k, z v, Some (nat_of_int (int_of_string n)))))); go r
       | "F" :: k :: r -> emit (show_out (st (OFind (z k)))); go r
       | ("R" | "P") :: k :: r -> emit (show_out (st (ORemove (z k)))); go r
-      | "D" :: m :: q :: r ->
-        (* cross-check: the bucket-wise formulation (brem_if) must give the same state as the iterator-machine loop used by step *)
-        let pred (k, _) = Z.equal (Z.erem (zarith_of_z k) (zarith_of_z (z m))) (zarith_of_z (z q)) in
-        let (sb, cb) = hremove_if_b_cfg !w.wa pred in
-        let x = st (ORemoveIf (z m, z q)) in
-        if show_shape (shape_cfg c sb) <> show_shape (shape_cfg c !w.wa) || (match x with RNum n -> sz n <> sz cb | _ -> true)
-        then emit "?brem_if-differs" else emit (show_out x); go r
+      | "D" :: m :: q :: r -> emit (show_out (st (ORemoveIf (z m, z q)))); go r
       | "E" :: k :: r ->
         (match st (OFind (z k)) with
          | ROpt (Some v) -> ignore (st (ORemove (z k))); ignore (st (OInsert (z k, v, None))); emit "1"
@@ -109,6 +103,26 @@ let () = iter_lines (fun line ->
   | ["cap"; pol; mc; log] ->
     let bc = two_pow (z log) in
     Printf.printf "%s %s\n" (sz (calc_capacity (z pol) (z mc) bc)) (sz (shift_fn (z pol) (z mc) bc))
+  | "kf" :: which :: args ->
+    let b2s b = if b then "1" else "0" in
+    let four = z "4" in
+    (match which, args with
+     | "0", [st] -> let st = z st in
+       Printf.printf "%s %s %s %s\n" (sz (Gen_LimP1t.pvGetCount st)) (sz (Gen_LimP1t.pvGetMemPoolIndex st))
+         (b2s (Gen_LimP1t.coq_IsFull four st)) (b2s (Gen_LimP1t.coq_WasFull four st))
+     | "1", [c] -> print_endline (sz (Gen_LimP1t.pvGetMemPoolIndexOf (z c)))
+     | "2", [v] -> let st = if v = "0" then Gen_Lim4.stateNull else if v = "1" then Gen_Lim4.stateNullWasFull else z v in
+       print_endline (b2s (Gen_Lim4.coq_WasFull st))
+     | "3", [p; i; c] -> let st = Gen_Lim4.pvSet (z "0") (z p) (z i) (z c) in
+       Printf.printf "%s %s\n" (sz st) (sz (Gen_Lim4.pvGetMemPoolIndex st))
+     | "4", [v] -> let st = if v = "0" then Gen_LimP.stateNull else if v = "1" then Gen_LimP.stateNullWasFull else z v in
+       print_endline (b2s (Gen_LimP.coq_WasFull st))
+     | "5", [c] -> print_endline (sz (Gen_LimP.pvGetMemPoolIndexOf (z c)))
+     | _ -> print_endline "?kf")
+  | "o8" :: sh :: bytes ->
+    (* BucketOpen8::Find (SSE2): order of the itemPred calls = visit (movemask bytes sh) *)
+    let m = Open8Match.movemask (List.map z bytes) (z sh) in
+    print_endline (String.concat "," (List.map sz (Open8Match.visit (nat_of_int 8) m)))
   | ["sh"; kind; hc] ->
     let f = if kind = "0" then Gen_LimP4.pvCalcShortHash else if kind = "1" then Gen_Open2N2.pvCalcShortHash else if kind = "3" then Gen_Open2N2w.pvCalcShortHash else Gen_OpenN1.ptCalcShortHash in
     print_endline (sz (f (z hc)))
